@@ -82,6 +82,12 @@ func verifyFunction(p *program, fn *ssa.Function, fc *funcContract, safetyOnly b
 		post.old = x.entry
 		x.bindResults(post, fn.Signature, tupleOf(out.vals, fn.Signature))
 		for k, e := range fc.ensures {
+			if e.tag == "defines" {
+				// `ensures [defines] result == ufb_f(args)`: introduces the name ufb_f for "what this function returns";
+				// sound when the function is deterministic in the stated arguments. Assumed at call sites, never an obligation.
+				x.trusted["definition by result: "+fn.String()+" is a deterministic function of its arguments ("+e.text+")"] = true
+				continue
+			}
 			g := x.evalBool(post, e.expr)
 			tag := fmt.Sprint(k)
 			if e.tag != "" {
